@@ -237,8 +237,10 @@ def hardforkOp (ws : List String) : String :=
 def step (line : String) : String :=
   match words line with
   | "enc" :: sp :: assigns =>
+    -- the tx digests are only observable as SHA-256 values: print the input as a term the harness evaluates
+    let pre := if sp == "tx" || sp == "txsign" then "sha256:" else ""
     match specOf sp, assigns.foldlM parseAssign emptyRec with
-    | some spec, some r => hex (encode spec r)
+    | some spec, some r => pre ++ hex (encode spec r)
     | _, _ => "bad-op"
   | ["mut", sp, f] =>
     match specOf sp with
